@@ -1,6 +1,6 @@
 #!/bin/bash
 # usage: tools/matrix_one.sh <ID> <n>  — runs every quick check against mutant n of /tmp/mut/<ID> (scratch worktree), in isolation
-ID="$1"; N="$2"; W=/tmp/mut/$ID
+ID="$1"; N="$2"; W=${MUT_BASE:-/tmp/mut}/$ID
 cd "$W" && git checkout -q -- . && git apply out/patch$N.diff || exit 2
 cd /verif
 line="$ID-$N"
